@@ -13,6 +13,7 @@ Record cfg := {
   has_trailer : bool;      (* …-TRAILER modes *)
   trailer_signed : bool;   (* STREAMING-AWS4-HMAC-SHA256-PAYLOAD-TRAILER *)
   skip_val : bool;         (* STREAMING-UNSIGNED-PAYLOAD[-TRAILER] *)
+  is_v4a : bool;           (* request authenticated with AWS4-ECDSA-P256-SHA256: signatures are '*'-padded *)
   tname : bytes;           (* lower-cased, trimmed x-amz-trailer header *)
   exp_sigs : list bytes;
   exp_tsig : bytes;
@@ -51,8 +52,12 @@ Definition parse_hex (l : bytes) : option N :=
          end
   end.
 
+(* signatureVerifier.normalizeStreamingSignature: SigV4a strips the '*' padding on the right *)
+Definition norm_sig (c : cfg) (s : bytes) : bytes :=
+  if is_v4a c then rev (trim_l (fun b => beqb b "*"%byte) (rev s)) else s.
+
 Definition sig_ok (c : cfg) (calls : nat) (claimed : bytes) : bool :=
-  match nth_error (exp_sigs c) calls with Some e => bytes_eqb e claimed | None => false end.
+  match nth_error (exp_sigs c) calls with Some e => bytes_eqb e (norm_sig c claimed) | None => false end.
 
 Definition tsig_prefix : bytes := B"x-amz-trailer-signature:".
 
@@ -111,7 +116,7 @@ Fixpoint dec (fuel : nat) (c : cfg) (b cursig : bytes) (calls : nat) (acc : byte
                      if negb (skip_val c) && negb (sig_ok c calls sig') then Reject
                      else if has_trailer c then
                        let '(ck, tsig) := trailer_lines 8 true rest [] [] in
-                       if trailer_signed c && negb (bytes_eqb tsig (exp_tsig c)) then Reject
+                       if trailer_signed c && negb (bytes_eqb (norm_sig c tsig) (exp_tsig c)) then Reject
                        else if ck_check c ck then Stored acc else Reject
                      else Stored acc
                    else
@@ -135,18 +140,38 @@ Inductive auth := AuthSigned | AuthOff | AuthAnonymous.
 Definition upload (a : auth) (c : cfg) (body : bytes) : outcome :=
   match a with AuthSigned => decode c body | _ => Stored body end.
 
-(* ---- line protocol ----
-   input : <auth on|off|anon> <mode S|ST|UT|U> <raw x-amz-trailer value> <body> <payload> <exp_sigs list> <exp_tsig> <exp_ck> <mutation label>
-   output: REJECT | STORED P (stored = payload) | STORED <hex> *)
-Definition parse_mode (m : bytes) : option (bool * bool * bool) :=   (* trailer, trailer signed, skip *)
-  if bytes_eqb m B"S" then Some (false, false, false)
-  else if bytes_eqb m B"ST" then Some (true, true, false)
-  else if bytes_eqb m B"UT" then Some (true, false, true)
-  else if bytes_eqb m B"U" then Some (false, false, true)
+(* ---- the mode table of checkAuthentication: x-amz-content-sha256 -> framing flags -------------
+   None = the request is refused (401): acceptsStreamingPayload ties the ECDSA constants to SigV4a requests and
+   the HMAC constants to SigV4 requests.  Any other value (incl. UNSIGNED-PAYLOAD or a hex digest) sent with
+   Content-Encoding: aws-chunked is decoded as signed chunks without trailer. *)
+Definition sha_U : bytes := B"STREAMING-UNSIGNED-PAYLOAD".
+Definition sha_UT : bytes := B"STREAMING-UNSIGNED-PAYLOAD-TRAILER".
+Definition sha_S : bytes := B"STREAMING-AWS4-HMAC-SHA256-PAYLOAD".
+Definition sha_ST : bytes := B"STREAMING-AWS4-HMAC-SHA256-PAYLOAD-TRAILER".
+Definition sha_ES : bytes := B"STREAMING-AWS4-ECDSA-P256-SHA256-PAYLOAD".
+Definition sha_EST : bytes := B"STREAMING-AWS4-ECDSA-P256-SHA256-PAYLOAD-TRAILER".
+Definition streaming_constants : list bytes := [sha_U; sha_UT; sha_S; sha_ST; sha_ES; sha_EST].
+
+Definition accepts_streaming (v4a : bool) (sha : bytes) : bool :=
+  if v4a then negb (bytes_eqb sha sha_S) && negb (bytes_eqb sha sha_ST)
+  else negb (bytes_eqb sha sha_ES) && negb (bytes_eqb sha sha_EST).
+
+(* (trailingHeader, hasTrailingHeaderWithSignature, skipChunkValidation) *)
+Definition mode_flags (v4a : bool) (sha : bytes) : option (bool * bool * bool) :=
+  if accepts_streaming v4a sha then
+    Some (bytes_eqb sha sha_UT || bytes_eqb sha sha_ST || bytes_eqb sha sha_EST,
+          bytes_eqb sha sha_ST || bytes_eqb sha sha_EST,
+          bytes_eqb sha sha_UT || bytes_eqb sha sha_U)
   else None.
-Definition parse_auth (a : bytes) : option auth :=
-  if bytes_eqb a B"on" then Some AuthSigned else if bytes_eqb a B"off" then Some AuthOff
-  else if bytes_eqb a B"anon" then Some AuthAnonymous else None.
+
+(* ---- line protocol ----
+   input : <auth on|on4a|off|anon> <x-amz-content-sha256> <raw x-amz-trailer value> <body> <payload> <exp_sigs list> <exp_tsig> <exp_ck> <label>
+   output: REJECT | STORED P (stored = payload) | STORED <hex>
+   (the label also carries "dlen+k"/"dlen-k": x-amz-decoded-content-length off by k — the code never compares it) *)
+Definition parse_auth (a : bytes) : option (auth * bool) :=
+  if bytes_eqb a B"on" then Some (AuthSigned, false) else if bytes_eqb a B"on4a" then Some (AuthSigned, true)
+  else if bytes_eqb a B"off" then Some (AuthOff, false)
+  else if bytes_eqb a B"anon" then Some (AuthAnonymous, false) else None.
 
 Definition show_outcome (payload : bytes) (o : outcome) : bytes :=
   match o with
@@ -156,13 +181,18 @@ Definition show_outcome (payload : bytes) (o : outcome) : bytes :=
 
 Definition run_line (l : bytes) : bytes :=
   match tokens l with
-  | [a; m; tn; body; payload; sigs; tsig; ck; _] =>
-      do a <- parse_auth a; do m <- parse_mode m; do tn <- untok_bytes tn; do body <- untok_bytes body;
+  | [a; m; tn; body; payload; sigs; tsig; ck; label] =>
+      do av <- parse_auth a; do sha <- untok_bytes m; do tn <- untok_bytes tn; do body <- untok_bytes body;
       do payload <- untok_bytes payload; do sigs <- untok_list sigs; do tsig <- untok_bytes tsig; do ck <- untok_bytes ck;
-      let '(tr, trs, sk) := m in
-      show_outcome payload
-        (upload a {| has_trailer := tr; trailer_signed := trs; skip_val := sk;
-                     tname := to_lower (trim_space tn);      (* strings.ToLower(strings.TrimSpace(r.Header.Get("x-amz-trailer"))) *)
-                     exp_sigs := sigs; exp_tsig := tsig; exp_ck := ck |} body)
+      let '(a, v4a) := av in
+      match a, mode_flags v4a sha with
+      | AuthSigned, None => B"REJECT"                          (* 401 before any handler runs *)
+      | _, flags =>
+          let '(tr, trs, sk) := match flags with Some f => f | None => (false, false, false) end in
+          show_outcome payload
+            (upload a {| has_trailer := tr; trailer_signed := trs; skip_val := sk; is_v4a := v4a;
+                         tname := to_lower (trim_space tn);      (* strings.ToLower(strings.TrimSpace(r.Header.Get("x-amz-trailer"))) *)
+                         exp_sigs := sigs; exp_tsig := tsig; exp_ck := ck |} body)
+      end
   | _ => parse_error
   end.
